@@ -34,6 +34,8 @@ const (
 	VerifM3CloseDrained        = verifhook.M3CloseDrained
 	VerifM3CloseDonech         = verifhook.M3CloseDonech
 	VerifUDPFlushed            = verifhook.UDPFlushed
+	VerifCtrBeforeAdd          = verifhook.CtrBeforeAdd
+	VerifM3CloseSpin           = verifhook.M3CloseSpin
 	VerifNumPoints             = verifhook.NumPoints
 )
 
